@@ -88,6 +88,7 @@ func CFFamilies(tier string) []*FamilySpec {
 	lists = append(lists, closeUnderReductions(gen.CFAll, corpus)...)
 	// added as they are (not closed under reduction: that would multiply the quick corpus by four)
 	lists = append(lists, jumpContextCorpus(tier)...)
+	lists = append(lists, nestedLoopCorpus()...)
 	fams := []*FamilySpec{genFamily("CF", gen.CFAll, lists), HandFamily("pool", "pool.go.txt"), yexprFamily(tier)}
 	return append(fams, ExampleFamilies()...)
 }
@@ -293,6 +294,32 @@ func jumpContextCorpus(tier string) []gen.List {
 				for _, b := range ifs {
 					add(loop, gen.List{mk(a, gen.List{mk(b, gen.List{{K: j}})}), y})
 					add(loop, gen.List{mk(b, gen.List{mk(a, gen.List{y, {K: j}})}), y})
+				}
+			}
+		}
+	}
+	return out
+}
+
+// nestedLoopCorpus: every pair of loop forms nested directly (the inner loop is the whole body of
+// the outer one, or follows a yielding if), so that one inner loop VALUE is activated once per outer
+// iteration: per-activation state (first-iteration flag, loop closure) must not survive.
+func nestedLoopCorpus() []gen.List {
+	y, e := &gen.Stmt{K: "Y"}, &gen.Stmt{K: "E"}
+	outers := []string{"While", "For3", "ForPostE", "ForPostY", "ForInitE"}
+	inners := []string{"While", "For3", "ForPostE", "ForPostY", "ForInitE", "ForInitY"}
+	var out []gen.List
+	for _, o := range outers {
+		for _, i := range inners {
+			inner := &gen.Stmt{K: i, Ch: [][]*gen.Stmt{{y}}}
+			for _, body := range []gen.List{
+				{inner},
+				{&gen.Stmt{K: "If", Ch: [][]*gen.Stmt{{y}}}, inner},
+				{inner, e},
+			} {
+				l := gen.List{{K: o, Ch: [][]*gen.Stmt{body}}, e}
+				if gen.CFAll.WellFormed(l) {
+					out = append(out, l)
 				}
 			}
 		}
